@@ -70,6 +70,8 @@ class World:
         fault = 'none' if small and rng.random() < 0.5 else rng.choice(['none', 'none', 'peer-drop', 'user-drop', 'both-drop', 'silence', 'error-replies', 'send-fails'])
         scen = {'callers': callers, 'order': rng.choice(['immediate', 'reverse', 'shuffle', 'delayed']), 'updates': rng.random() < 0.4,
                 'fault': fault, 'fault_at': rng.randint(0, max(0, sum(len(c) for c in callers))), 'peerseed': rng.randrange(1 << 20)}
+        if rng.random() < 0.3:
+            scen['small_send_buffer'] = rng.choice([5, 12, 40])
         if rng.random() < 0.25:
             # the peer's replies arrive in two pieces, the second after a pause that may be longer than the receiver's
             # socket time-out (1 s): the bytes already received must not be lost
@@ -199,6 +201,8 @@ class World:
                 state['streamed'] = state.get('streamed', 0) + 1
 
         def listener(sock):
+            if scen.get('small_send_buffer'):
+                sock.send_limit = scen['small_send_buffer']     # (matters only for code that uses send() where sendall() is due)
             t = D.CoThread(target=serve, args=(sock,), name=f'peer{len(self.sockmod.sockets)}')
             t.start()
             if scen.get('stream'):
